@@ -80,6 +80,24 @@ fn main() {
                 Err(_) => writeln!(out, "{}", json!({"panic": last_panic_loc()})).unwrap(),
             }
         }
+        Some("compilenamed") => {
+            // as the command-line tool calls the library: with the source file's name
+            let src = std::fs::read_to_string(&args[2]).expect("ink");
+            let src = src.strip_prefix('\u{feff}').unwrap_or(&src).to_owned();
+            let name = args[3].clone();
+            let r = std::panic::catch_unwind(|| {
+                bladeink_compiler::Compiler::with_options(bladeink_compiler::CompilerOptions {
+                    count_all_visits: true,
+                    source_filename: Some(name),
+                })
+                .compile(&src)
+            });
+            match r {
+                Ok(Ok(j)) => writeln!(out, "{}", j).unwrap(),
+                Ok(Err(e)) => writeln!(out, "{}", json!({"err": e.to_string()})).unwrap(),
+                Err(_) => writeln!(out, "{}", json!({"panic": last_panic_loc()})).unwrap(),
+            }
+        }
         _ => {
             eprintln!("usage: rt play|audit|pathprobe|compile ...");
             std::process::exit(2);
